@@ -134,6 +134,7 @@ inductive FieldTy where
 
 inductive ReprKind where
   | c | packed | transparent
+  | union   -- C19: `#[repr(C)] union` (all members at offset 0); laid out by `Base.layoutK` (Base/Ioctl.lean)
   deriving Repr, DecidableEq, Inhabited
 
 structure StructDef where
